@@ -81,6 +81,17 @@ variable [LT α] [DecidableLT α]
 def maxL (a : α) (l : List α) : α := l.foldl (fun m x => if m < x then x else m) a
 def minL (a : α) (l : List α) : α := l.foldl (fun m x => if x < m then x else m) a
 
+/-- `numpy.fmin.reduce(col)` / `numpy.fmax.reduce(col)`: the NaN-IGNORING extrema; NaN for a column
+    without any value -/
+def fminReduce (c : Col α) : Option α :=
+  match present c with
+  | a :: l => some (minL a l)
+  | [] => none
+def fmaxReduce (c : Col α) : Option α :=
+  match present c with
+  | a :: l => some (maxL a l)
+  | [] => none
+
 /-- `numpy.argmax` on `a :: l` (first occurrence of the maximum): `best` is the running maximum,
     `bi` its index, `i` the index of the head of the remaining list -/
 def argmaxGo (best : α) (bi i : Nat) : List α → Nat
@@ -152,8 +163,10 @@ def guardScale (s : α) : α := if s = 0 then 1 else s
 /-- `(1.0 / scale) * (x - location)` -/
 def standardise (loc scale x : Option α) : Option α := omul (orecip scale) (osub x loc)
 
-/-- `DenseBreedingValueMatrix.from_numpy` on one column -/
-def fromNumpyCol (sq : α → α) (c : Col α) : Trait α :=
+/-- `DenseBreedingValueMatrix.from_numpy` on one column BEFORE the fix of D26 (`<commit>`): the only guard is
+    `scale[scale == 0.0] = 1.0`.  Not the code as it is; kept for `C15.inexact_mean_prerepair_counterexample`
+    and for `C15.prerepair_eq_from_numpy_exact` (in exact arithmetic the fix changes nothing). -/
+def fromNumpyColPrerepair (sq : α → α) (c : Col α) : Trait α :=
   let loc := nanmean c
   let scale := (nanstd sq c).map guardScale
   { mat := c.map (standardise loc scale), loc := loc, scale := scale }
@@ -165,6 +178,35 @@ def unscaleEntry (loc scale x : Option α) : Option α := oadd (omul scale x) lo
 def unscaleCol (t : Trait α) : Col α := t.mat.map (unscaleEntry t.loc t.scale)
 
 variable [LT α] [DecidableLT α]
+
+/-- `lo == hi` on floats: false as soon as one side is NaN -/
+def oeq : Option α → Option α → Bool
+  | some a, some b => decide (a = b)
+  | _, _ => false
+
+/-- `const = (fmin.reduce(col) == fmax.reduce(col))`: the trait has a value and all its values are EQUAL
+    (exact comparison of the values themselves, no arithmetic) -/
+def isConstCol (c : Col α) : Bool := oeq (fminReduce c) (fmaxReduce c)
+
+/-- the location `from_numpy` / `rescale` store:  `location = nanmean(col); location[const] = lo[const]` -/
+def fitLoc (c : Col α) : Option α := if isConstCol c then fminReduce c else nanmean c
+
+/-- the scale they store:  `scale = nanstd(col); scale[scale == 0.0] = 1.0; scale[const] = 1.0` -/
+def fitScale (sq : α → α) (c : Col α) : Option α :=
+  if isConstCol c then some 1 else (nanstd sq c).map guardScale
+
+/-- `DenseBreedingValueMatrix.from_numpy` on one column (as of the fix of D26):
+    ```
+    location = nanmean(mat, 0); scale = nanstd(mat, 0); scale[scale == 0.0] = 1.0
+    if mat.shape[0] > 0:                       # with no taxa no column has a value and `const` is False
+        lo = fmin.reduce(mat, 0); hi = fmax.reduce(mat, 0); const = (lo == hi)
+        location[const] = lo[const]; scale[const] = 1.0
+    mat = (1.0 / scale) * (mat - location)
+    ``` -/
+def fromNumpyCol (sq : α → α) (c : Col α) : Trait α :=
+  let loc := fitLoc c
+  let scale := fitScale sq c
+  { mat := c.map (standardise loc scale), loc := loc, scale := scale }
 
 /-- `out = mat.max(axis=0); if unscale: out *= scale; out += location` -/
 def tmax (unscale : Bool) (t : Trait α) : Option α :=
@@ -217,7 +259,7 @@ deriving Repr, DecidableEq
 
 section matrix
 variable {α : Type} [Add α] [Sub α] [Mul α] [Div α] [OfNat α 0] [OfNat α 1] [NatCast α]
-  [DecidableEq α]
+  [DecidableEq α] [LT α] [DecidableLT α]
 
 def fromNumpy (sq : α → α) (cols : List (Col α)) (taxa : List Nat) : BV α :=
   { traits := cols.map (fromNumpyCol sq), taxa := taxa }
@@ -488,7 +530,7 @@ end matrix
 /-! ### DenseScaledMatrix (generic scaled matrix, trailing axis = columns here) -/
 section scaled
 variable {α : Type} [Add α] [Sub α] [Mul α] [Div α] [OfNat α 0] [OfNat α 1] [NatCast α]
-  [DecidableEq α]
+  [DecidableEq α] [LT α] [DecidableLT α]
 
 /-- `out -= location; out *= (1.0 / scale)` -/
 def transformEntry (loc scale x : Option α) : Option α := omul (osub x loc) (orecip scale)
@@ -501,9 +543,16 @@ def untransformCol (t : Trait α) (x : Col α) : Col α := x.map (untransformEnt
 /-- `DenseScaledMatrix.unscale(inplace=False)` -/
 def scaledUnscaleCol (t : Trait α) : Col α := untransformCol t t.mat
 
-/-- `DenseScaledMatrix.rescale`: the returned matrix with the new location and scale
-    (stored when `inplace=True`) -/
+/-- `DenseScaledMatrix.rescale` (as of the fix of D26): the returned matrix with the new location and scale
+    (stored when `inplace=True`); the same `const` guard as `from_numpy`, over all leading axes -/
 def rescaleCol (sq : α → α) (t : Trait α) : Trait α :=
+  let out := scaledUnscaleCol t
+  let loc := fitLoc out
+  let scale := fitScale sq out
+  { mat := out.map (transformEntry loc scale), loc := loc, scale := scale }
+
+/-- `rescale` BEFORE the fix of D26.  Not the code as it is. -/
+def rescaleColPrerepair (sq : α → α) (t : Trait α) : Trait α :=
   let out := scaledUnscaleCol t
   let loc := nanmean out
   let scale := (nanstd sq out).map guardScale
